@@ -37,4 +37,7 @@ where
 /-- K, s ⊨ f for a state formula f: evaluate at position 0 of any sequence starting in s (the constant one) -/
 def satState (K : Kripke σ) (f : Fm) (s : σ) : Prop := sat K f (fun _ => s) 0
 
+/-- ultimately periodic sequences ("lasso" paths): a finite prefix followed by a finite loop repeated forever -/
+def UltPeriodic (π : Nat → σ) : Prop := ∃ N p, 0 < p ∧ ∀ i, N ≤ i → π (i + p) = π i
+
 end PMC
